@@ -16,8 +16,8 @@ Proof. destruct k; simpl; intros H. right; auto. left. split; auto. destruct (qi
 Lemma qi_set_intr x : qi (set_intr x) = qi x. Proof. unfold set_intr. destruct (pol x && negb (intr x)); reflexivity. Qed.
 Lemma hasi_set_intr x : hasi (set_intr x) = hasi x. Proof. unfold set_intr. destruct (pol x && negb (intr x)); reflexivity. Qed.
 
-Lemma disp_lock_qi b oi batch b1 : disp_lock b oi = (batch, b1) -> qi b1 = [].
-Proof. unfold disp_lock. destruct (qi b) eqn:Ei; [destruct oi; [|destruct (qn b) eqn:En]|]; intros H; injection H as <- <-; reflexivity. Qed.
+Lemma disp_lock_qi b oi batch b1 oi' : disp_lock b oi = Some (batch, b1, oi') -> qi b1 <> [] -> hasi b1 = true.
+Proof. intros H. destruct (disp_lock_spec _ _ _ _ _ H) as (_ & _ & Hi & _). exact Hi. Qed.
 
 Lemma step_hasi c t0 c' : hasi_ok c -> step c t0 = Some c' -> hasi_ok c'.
 Proof.
@@ -40,7 +40,7 @@ Proof.
   all: rewrite ?qi_set_intr, ?hasi_set_intr in *.
   all: try (left; eapply K0; eauto; intros; discriminate).
   all: try (eapply F; eauto; fail).
-  all: match goal with Hd : disp_lock _ _ = _ |- _ => apply disp_lock_qi in Hd; congruence end.
+  all: match goal with Hd : disp_lock _ _ = _ |- _ => left; eapply disp_lock_qi; eauto end.
 Qed.
 
 Lemma init_hasi progs nids bds : hasi_ok (init progs nids bds).
